@@ -7,7 +7,7 @@ usage: confirm_seeds.py [--src /tmp/seed2 --offset 2] C01 C03 ...   (property id
 --src names the delivery root of a later round, --offset k stores its m1/m2 as m<1+k>/m<2+k>."""
 import json, os, subprocess, sys, shutil, glob, re
 V = os.path.dirname(os.path.dirname(os.path.abspath(__file__)))
-SCR = "/tmp/vconfirm"
+SCR = os.environ.get("VCONFIRM_DIR", "/tmp/vconfirm")
 # tests that fail (or flake) on the pristine tree in this sandbox; never counted as a new failure
 KNOWN_PRISTINE = {"TestLazyInitError", "TestBuildDirTree", "TestHandlerPromRead", "TestReliabilityLog"}
 CACHE = "/tmp/vconfirm.cache"
